@@ -599,7 +599,10 @@ func main() {
 	r.Count("client_close_abandoned_after_10s", closeAbandoned.Load())
 
 	r.Finish("values: one atom per (method, content kind, string class) + extras (error flag, structured content depth 0-5, roles, descriptions, empty sequences) + handler errors per message class + seeded random combinations "+
-		"(tool results 0-6 items x isError x structured content, prompt results 0-4 messages x roles x description, resource reads 1-4 contents; 40% drawn from text/image with non-empty strings, 60% from all five kinds and all classes); "+
+		"(tool results 0-6 items x isError x structured content x _meta, prompt results 0-4 messages x roles x description x _meta, resource reads 1-4 contents; 40% drawn from text/image with non-empty strings, 60% from all five kinds and all classes); "+
+		"protocol look-alikes: six string classes (complete JSON-RPC messages, JSON fragments such as \"error\":, SSE fields / comments / frames, whitespace only, single quote / backslash / bracket, JSON literals) in every text kind, description and handler error message; "+
+		"a third of the URIs and MIME types are look-alikes; structured content and _meta (tools, prompts) with each of the 17 member names the decoders look for (error, result, id, jsonrpc, method, params, code, message, content, isError, contents, messages, type, text, data, resource, _meta) "+
+		"at 4 nesting levels (through objects and arrays) with the value kinds null / object / string / number rotated over the levels (all 4 rotations, so every name x depth x value kind), whole protocol envelopes as the value or nested in it, empty / blank / case-variant keys, numbers at the float64 / int64 / uint64 limits and in exponent form; "+
 		"every value is served by a handler (in-process server or the stdio child) and fetched with the library client of each of the 7 configurations, compared structurally item by item and byte by byte; "+
 		"descriptors: tools (NewTool + With* options, 81 annotation combinations, struct-derived schemas), prompts and resources listed through each client and compared as sets by name. "+
 		"A case is distinct by (method, configuration, kind sequence, string-class vector) and non-trivial when the client's value or error was compared with the handler's.",
@@ -607,7 +610,9 @@ func main() {
 			"invalid UTF-8 and lone surrogates are outside the statement (encoding/json replaces them) and are not generated",
 			"content annotations are not part of the statement and are neither generated nor compared",
 			"image/audio data and blobs are valid base64 (including the empty string); MIME types and URIs are non-empty short strings",
-			"structured content is a JSON object at the top level; numbers are integers within +-2^53 and simple floats",
+			"structured content and _meta are JSON objects at the top level; numbers are finite float64 values or number literals within the float64 range and are compared as float64 (the precision the statement's 'JSON normalisation of numbers' leaves); a client delivering json.Number is accepted",
+			"_meta is part of what a tool / prompt handler returns (Result.Meta) and is compared as a JSON value; an empty _meta and no _meta are the same; resource handlers cannot return a _meta",
+			"a call that fails although the handler returned a result with look-alike structured content / _meta is attributed to that value when the single-item cases of its content items do not fail on the same configuration",
 			"a failing combination is attributed to its smallest failing component by looking up the single-item case of each of its (content kind, string class) components on the same configuration",
 			"a call that neither returns nor fails within 60 s is reported as inconclusive",
 			"list order and pagination are not examined",
@@ -623,6 +628,8 @@ func judgeValues(r *vh.Run, tbl []caseSpec, runs []*kindRun) {
 	}
 	atomSym := map[atomKey]map[string]bool{}
 	samples := 0
+	lookSamples := 0
+	look := newLookCount()
 
 	for _, kr := range runs {
 		for i := range tbl {
@@ -644,6 +651,7 @@ func judgeValues(r *vh.Run, tbl []caseSpec, runs []*kindRun) {
 					r.Count("equal_"+c.Method, 1)
 					r.Max("payload_bytes_compared_equal", res.Bytes)
 					r.Max("payload_bytes_equal_"+string(kr.kind), res.Bytes)
+					look.count(r, kr.kind, c)
 				}
 			}
 			if res.HasErr {
@@ -670,6 +678,10 @@ func judgeValues(r *vh.Run, tbl []caseSpec, runs []*kindRun) {
 			}
 			if samples < 4 && c.Shape == "combo" && len(c.Items) >= 2 && (kr.kind == kit.SSSE || kr.kind == kit.Stdio) {
 				samples++
+				r.Sample(map[string]interface{}{"transport": kr.kind, "case": c, "handler_value": describeExpected(c), "client_error": res.Err, "differences": res.Diffs, "equal": res.Compared && len(res.Diffs) == 0})
+			}
+			if lookSamples < 3 && c.Shape == "extra" && c.protoTail() != "" && (lookSamples == 0) == (c.SC != nil && c.SC.Mode == "chain") && kr.kind == kit.AllKinds[(lookSamples*3)%len(kit.AllKinds)] {
+				lookSamples++
 				r.Sample(map[string]interface{}{"transport": kr.kind, "case": c, "handler_value": describeExpected(c), "client_error": res.Err, "differences": res.Diffs, "equal": res.Compared && len(res.Diffs) == 0})
 			}
 			if c.Shape == "atom" {
@@ -702,6 +714,22 @@ func judgeValues(r *vh.Run, tbl []caseSpec, runs []*kindRun) {
 			}
 			// content-level symptoms
 			for sym, idxs := range contentSymptoms(res) {
+				// a call that fails although the handler returned a result whose structured content / _meta is under
+				// test, and whose content items alone do not fail: attributed to the structured value
+				if sym == "client-error" && c.protoTail() != "" {
+					explained := false
+					for _, it := range c.Items {
+						if atomSym[atomKey{kr.kind, c.Method, it.Kind, it.Class}][sym] {
+							explained = true
+						}
+					}
+					if !explained {
+						findings = append(findings, finding{Method: c.Method, Kind: kr.kind, Tail: c.protoTail() + "|client-error",
+							What:    fmt.Sprintf("%s %s: the handler returned a successful result (%s), the caller got an error: %s", kr.kind, c.Method, c.kindSeq(), res.Err),
+							Witness: wit()})
+						continue
+					}
+				}
 				switch {
 				case len(c.Items) == 0:
 					findings = append(findings, finding{Method: c.Method, Kind: kr.kind, Tail: "content=none|" + sym,
@@ -759,8 +787,19 @@ func judgeValues(r *vh.Run, tbl []caseSpec, runs []*kindRun) {
 					findings = append(findings, finding{Method: c.Method, Kind: kr.kind, Tail: "iserror=" + d.Class + "|iserror-differs",
 						What: fmt.Sprintf("%s %s: %s", kr.kind, c.Method, d.Detail), Witness: wit()})
 				case "structured":
-					findings = append(findings, finding{Method: c.Method, Kind: kr.kind, Tail: "structured=" + d.Class + "|structured-differs",
+					cls := d.Class
+					if c.SC != nil && c.SC.Mode != "" {
+						cls = c.SC.class() + ":" + d.Class
+					}
+					findings = append(findings, finding{Method: c.Method, Kind: kr.kind, Tail: "structured=" + cls + "|structured-differs",
 						What: fmt.Sprintf("%s %s: structured content: %s", kr.kind, c.Method, d.Detail), Witness: wit()})
+				case "meta":
+					cls := d.Class
+					if c.Meta != nil {
+						cls = c.Meta.class() + ":" + d.Class
+					}
+					findings = append(findings, finding{Method: c.Method, Kind: kr.kind, Tail: "meta=" + cls + "|meta-differs",
+						What: fmt.Sprintf("%s %s: %s", kr.kind, c.Method, d.Detail), Witness: wit()})
 				case "description":
 					findings = append(findings, finding{Method: c.Method, Kind: kr.kind, Tail: "description|string=" + d.Class + "|text-differs",
 						What: fmt.Sprintf("%s %s: %s", kr.kind, c.Method, d.Detail), Witness: wit()})
@@ -781,6 +820,104 @@ func judgeValues(r *vh.Run, tbl []caseSpec, runs []*kindRun) {
 	for _, m := range []string{mTool, mPrompt, mRes} {
 		if r.Counter("equal_"+m) == 0 {
 			r.Require(false, "no %s value arrived equal on any configuration", m)
+		}
+	}
+	look.requireObserved(r)
+}
+
+// lookCount counts, per configuration, the protocol look-alikes that were fetched and compared equal.
+type lookCount struct {
+	texts   map[string]bool // method|class
+	errs    map[string]bool // method|class
+	members map[string]bool // carrier|method|configuration
+}
+
+func newLookCount() *lookCount {
+	return &lookCount{texts: map[string]bool{}, errs: map[string]bool{}, members: map[string]bool{}}
+}
+
+func (l *lookCount) count(r *vh.Run, kind kit.Kind, c *caseSpec) {
+	if c.Err != nil {
+		if isProtoTextClass(c.Err.Class) {
+			r.Count("lookalike_handler_error_messages_carried", 1)
+			l.errs[c.Method+"|"+c.Err.Class] = true
+		}
+		return
+	}
+	items := c.Items
+	if c.Single {
+		items = items[:1]
+	}
+	for _, it := range items {
+		if isTextKind(it.Kind) && isProtoTextClass(it.Class) {
+			r.Count("lookalike_texts_equal", 1)
+			r.SetAdd("lookalike_texts_equal", fmt.Sprintf("%s|%s|%s|%s", c.Method, kind, it.Kind, it.Class))
+			l.texts[c.Method+"|"+it.Class] = true
+		}
+		switch it.Kind {
+		case kEmbText, kEmbBlob, kResText, kResBlob:
+			_, _, lu, lm := rcParts(it)
+			if lu {
+				r.Count("lookalike_uris_equal", 1)
+			}
+			if lm {
+				r.Count("lookalike_mime_types_equal", 1)
+			}
+		case kImage, kAudio:
+			if _, lm := mediaMime(it); lm {
+				r.Count("lookalike_mime_types_equal", 1)
+			}
+		}
+	}
+	if c.Desc != nil && isProtoTextClass(c.Desc.Class) {
+		r.Count("lookalike_descriptions_equal", 1)
+		l.texts["description|"+c.Desc.Class] = true
+	}
+	one := func(carrier string, sp *scSpec) {
+		if sp == nil || (sp.Mode == "" && carrier == "structured") {
+			return
+		}
+		mode := sp.Mode
+		if mode == "" {
+			mode = "generated"
+		}
+		r.Count(fmt.Sprintf("lookalike_%s_equal_%s_%s", carrier, c.Method, mode), 1)
+		if sp.Mode == "chain" {
+			l.members[fmt.Sprintf("%s|%s|%s", carrier, c.Method, kind)] = true
+			for lvl := 0; lvl < chainLevels; lvl++ {
+				r.SetAdd("lookalike_members_equal_"+carrier, fmt.Sprintf("%s|%s|%s|depth%d|%s", c.Method, kind, sp.Arg, lvl+1, chainKind(sp.Rot, lvl)))
+			}
+		}
+	}
+	one("structured", c.SC)
+	one("meta", c.Meta)
+}
+
+// requireObserved: a run in which the look-alike scenarios were not observed to hold must not claim they held.
+func (l *lookCount) requireObserved(r *vh.Run) {
+	for _, cl := range protoTextClasses {
+		for _, m := range []string{mTool, mPrompt, mRes, "description"} {
+			if !l.texts[m+"|"+cl] {
+				r.Require(false, "no %s text of the look-alike class %s arrived equal on any configuration", m, cl)
+			}
+		}
+		for _, m := range []string{mTool, mPrompt, mRes} {
+			if !l.errs[m+"|"+cl] {
+				r.Require(false, "no %s handler error with a message of the look-alike class %s was carried on any configuration", m, cl)
+			}
+		}
+	}
+	for _, k := range kit.AllKinds {
+		for _, cm := range []string{"structured|" + mTool, "meta|" + mTool, "meta|" + mPrompt} {
+			if !l.members[cm+"|"+string(k)] {
+				r.Require(false, "%s: no result with protocol member names in %s arrived equal", k, cm)
+			}
+		}
+	}
+	for _, k := range []string{"lookalike_uris_equal", "lookalike_mime_types_equal", "lookalike_structured_equal_" + mTool + "_numbers", "lookalike_structured_equal_" + mTool + "_keys",
+		"lookalike_structured_equal_" + mTool + "_envelope", "lookalike_meta_equal_" + mTool + "_envelope", "lookalike_meta_equal_" + mPrompt + "_envelope"} {
+		if r.Counter(k) == 0 {
+			r.Require(false, "monitor %s is zero: the scenario was not observed", k)
 		}
 	}
 }
@@ -1195,13 +1332,18 @@ func selfTest(r *vh.Run, tbl []caseSpec) {
 				if x.StructuredContent != nil {
 					x.StructuredContent, _ = normalise(x.StructuredContent)
 				}
+				x.Meta = receivedMeta(x.Meta)
 				return x
 			}
 			same = cmpTool(c.toolResult(), asReceived(c.toolResult()))
 			other = cmpTool(c.toolResult(), asReceived(m.toolResult()))
 		case mPrompt:
-			same = cmpPrompt(c.promptResult(), c.promptResult(), "")
-			other = cmpPrompt(c.promptResult(), m.promptResult(), "")
+			asReceived := func(x *mcp.GetPromptResult) *mcp.GetPromptResult {
+				x.Meta = receivedMeta(x.Meta)
+				return x
+			}
+			same = cmpPrompt(c.promptResult(), asReceived(c.promptResult()), "")
+			other = cmpPrompt(c.promptResult(), asReceived(m.promptResult()), "")
 		default:
 			same = cmpRead(c.resContents(), &mcp.ReadResourceResult{Contents: c.resContents()})
 			other = cmpRead(c.resContents(), &mcp.ReadResourceResult{Contents: m.resContents()})
@@ -1238,5 +1380,87 @@ func selfTest(r *vh.Run, tbl []caseSpec) {
 	if ds := cmpTool(a, &mcp.CallToolResult{Content: []mcp.Content{mcp.NewTextContent("x")}, StructuredContent: map[string]interface{}{"a": []interface{}{1.0, "s", nil}}}); len(ds) != 0 {
 		r.Fatal("self-test: equal values reported different: %+v", ds)
 	}
+	// _meta changes, and the look-alike generators reach what they are meant to reach
+	withMeta := func(v interface{}) *mcp.CallToolResult {
+		x := &mcp.CallToolResult{Content: []mcp.Content{mcp.NewTextContent("x")}}
+		x.Meta = map[string]interface{}{"error": map[string]interface{}{"error": v}}
+		return x
+	}
+	if ds := cmpTool(withMeta(nil), withMeta(nil)); len(ds) != 0 {
+		r.Fatal("self-test: equal _meta reported different: %+v", ds)
+	}
+	for _, got := range []*mcp.CallToolResult{withMeta(0.0), withMeta(map[string]interface{}{}), {Content: []mcp.Content{mcp.NewTextContent("x")}}} {
+		if ds := cmpTool(withMeta(nil), got); len(ds) != 1 || ds[0].Symptom != "meta-differs" {
+			r.Fatal("self-test _meta: comparer reported %+v, want one meta-differs", ds)
+		}
+	}
+	if ds := cmpTool(&mcp.CallToolResult{Content: []mcp.Content{mcp.NewTextContent("x")}}, withMeta(nil)); len(ds) != 1 || ds[0].Symptom != "meta-differs" {
+		r.Fatal("self-test _meta: an unexpected _meta is not reported: %+v", ds)
+	}
+	for _, name := range protoNames {
+		for rot := 0; rot < 4; rot++ {
+			sp := &scSpec{Mode: "chain", Arg: name, Rot: rot, Depth: chainLevels, Salt: int64(rot)}
+			v, err := normalise(buildSC(sp))
+			if err != nil {
+				r.Fatal("self-test: member chain %s does not encode: %v", name, err)
+			}
+			if got := chainKindsFound(v, name); got != chainLevels {
+				r.Fatal("self-test: member chain (%s, rotation %d) has the member at %d levels, want %d", name, rot, got, chainLevels)
+			}
+		}
+	}
 	r.Count("selftest_mutated_values_detected", int64(n))
+}
+
+// receivedMeta delivers a _meta object the way a JSON decoder does (absent when empty).
+func receivedMeta(m map[string]interface{}) map[string]interface{} {
+	if len(m) == 0 {
+		return nil
+	}
+	v, _ := normalise(m)
+	out, _ := v.(map[string]interface{})
+	return out
+}
+
+// chainKindsFound walks a decoded member chain and counts the levels at which the member was found with the
+// value kind the level calls for (any rotation).
+func chainKindsFound(v interface{}, name string) int {
+	kindOf := func(x interface{}) string {
+		switch x.(type) {
+		case nil:
+			return "null"
+		case map[string]interface{}:
+			return "object"
+		case string:
+			return "string"
+		case float64:
+			return "number"
+		}
+		return "other"
+	}
+	n := 0
+	seen := map[string]bool{}
+	for cur, _ := v.(map[string]interface{}); cur != nil; {
+		val, ok := cur[name]
+		if !ok {
+			break
+		}
+		k := kindOf(val)
+		if k != "other" && !seen[k] {
+			seen[k] = true
+			n++
+		}
+		var next map[string]interface{}
+		if m, ok := cur["next"].(map[string]interface{}); ok {
+			next = m
+		} else if l, ok := cur["list"].([]interface{}); ok && len(l) == 2 {
+			next, _ = l[1].(map[string]interface{})
+		} else if m, ok := val.(map[string]interface{}); ok {
+			if _, deeper := m[name]; deeper {
+				next = m
+			}
+		}
+		cur = next
+	}
+	return n
 }
